@@ -228,6 +228,67 @@ def contract_2d(reg, prop):
             reg.undecided("%s._interpret_data.engine.%s" % (prop, tag), "outside subset: %s" % exc, function=FN)
 
 
+def contract_oriented(reg, prop):
+    """'Iq-oriented' branch (1-D data of an oriented sample, data.oriented = True, slit widths given): the branch must
+    build its resolution object, i.e. the call it makes must bind to the signature of resolution2d.Slit2D (a
+    constructor call that cannot bind raises TypeError for every such data set)."""
+    import inspect
+    import sasmodels.direct_model as live
+    from sasmodels import resolution2d
+    oid = "%s._interpret_data.oriented_branch_call_binds_to_the_Slit2D_constructor" % prop
+
+    def body(it):
+        n = z3.Int("n")
+        it.assume(n >= 0)
+        mk = lambda nm: it.array_from_fn(lambda j, f=z3.Function(nm, z3.IntSort(), z3.RealSort()): f(j), n, "real", nm)
+        y = mk("y")
+        y.nan_el = lambda j, f=z3.Function("y_is_nan", z3.IntSort(), z3.BoolSort()): f(j)
+        data = it.new_obj(None, {"x": mk("x"), "y": y, "dy": mk("dy"), "dxl": mk("dxl"), "dxw": mk("dxw"), "dx": None,
+                                 "oriented": True, "qmin": Sym(z3.Real("qmin")), "qmax": Sym(z3.Real("qmax"))}, "Data1D")
+        record = {}
+
+        def slit2d(it_, args, kw):
+            o = it_.new_obj(None, {"kind": "Slit2D"}, "Slit2D")
+            record[id(o)] = (list(args), dict(kw))
+            return o
+        it.summaries["sasmodels.resolution2d.Slit2D"] = Summary(slit2d, "resolution2d.Slit2D (recorded)", contract=False)
+        selfo = it.new_obj(live.DataMixin, {}, "self")
+        f = it.get_func(MOD, "DataMixin._interpret_data")
+        it.call(f, [selfo, data, it.new_obj(None, {}, "model")])
+        res = it.getattr(selfo, "resolution")
+        args, kw = record.get(id(res), (None, None))
+        ok, why = False, "no Slit2D was built"
+        if args is not None:
+            try:
+                inspect.signature(resolution2d.Slit2D.__init__).bind(None, *args, **kw)
+                ok, why = True, ""
+            except TypeError as exc:
+                why = "Slit2D(%d positional, %s) does not bind: %s" % (len(args), sorted(kw), exc)
+        reg.prove(oid, list(it.pc), z3.BoolVal(ok), function=FN, replay=lambda mdl=None: replay_oriented(),
+                  describe="the oriented branch calls Slit2D with arguments its constructor accepts (%s)" % why)
+    it = Interp(reg)
+    try:
+        it.run_paths(body)
+    except OutsideSubset as exc:
+        reg.undecided(oid + ".engine", "outside subset: %s" % exc, function=FN)
+
+
+def replay_oriented():
+    import numpy as np
+    from sasmodels import data as sdata
+    from sasmodels.direct_model import DataMixin
+    x = np.linspace(0.01, 0.1, 6)
+    d = sdata.Data1D(x=x, y=np.ones(6), dy=0.1 * np.ones(6))
+    d.dxl, d.dxw, d.oriented = np.full(6, 0.05), np.full(6, 0.002), True
+    d.qmin, d.qmax = 0.0, 1.0
+    try:
+        DataMixin()._interpret_data(d, None)
+        return False, {"call": "DataMixin()._interpret_data(Data1D(oriented=True, dxl, dxw), None)", "real": "constructed"}
+    except TypeError as exc:
+        return True, {"call": "DataMixin()._interpret_data(Data1D(oriented=True, dxl, dxw), None)",
+                      "real": "TypeError: %s" % exc, "spec": "a Slit2D resolution object"}
+
+
 def _abs_q_term(e):
     """The sqrt(...) application inside the index expression (None if there is none or more than one)."""
     found, seen, stack = {}, set(), [e]
